@@ -1,2 +1,43 @@
-setup:
-	@echo "nothing to build yet"
+# /verif/Makefile — builds the bbmc runtime, the instrumented babylon objects and the harnesses.
+REPO ?= /repo
+B := /verif/build
+CXX := g++
+INC := -I/verif/rt -I/verif/harness -I$(REPO)/src -isystem /root/miniconda/include
+MCFLAGS := -std=gnu++20 -O2 -g -DNDEBUG -fsanitize=thread -U__SANITIZE_THREAD__ --param tsan-instrument-func-entry-exit=0 -Wno-tsan -Wno-deprecated-declarations $(INC)
+RTFLAGS := -std=gnu++20 -O2 -g -Wall -Wno-unused -Wno-volatile -Wno-misleading-indentation -Wno-format-truncation -Wno-return-type -I/verif/rt -isystem /root/miniconda/include
+LIBS := -lprotobuf -labsl_time -labsl_base -labsl_strings -labsl_hash -labsl_city -labsl_low_level_hash -labsl_raw_hash_set -labsl_throw_delegate -labsl_raw_logging_internal -labsl_int128 -ldl -lpthread
+
+# babylon translation units needed by the model-checking harnesses (compiled from the current working tree)
+BSRC := $(filter-out $(REPO)/src/babylon/reusable/message.trick.cpp $(REPO)/src/babylon/anyflow/builtin/expression.cpp, \
+        $(wildcard $(REPO)/src/babylon/*.cpp $(REPO)/src/babylon/concurrent/*.cpp $(REPO)/src/babylon/coroutine/*.cpp \
+                   $(REPO)/src/babylon/logging/*.cpp $(REPO)/src/babylon/reusable/*.cpp $(REPO)/src/babylon/anyflow/*.cpp \
+                   $(REPO)/src/babylon/anyflow/builtin/*.cpp $(REPO)/src/babylon/serialization/*.cpp))
+BOBJ := $(patsubst $(REPO)/src/%.cpp,$(B)/mc/%.o,$(BSRC))
+
+MCH := $(patsubst /verif/harness/%.cpp,%,$(wildcard /verif/harness/mc_*.cpp)) litmus
+
+.PHONY: setup rt mc-objs all-mc
+setup: rt $(B)/litmus
+	python3 /verif/check selftest
+
+rt: $(B)/bbmc_rt.o
+$(B)/bbmc_rt.o: /verif/rt/bbmc_rt.cpp $(wildcard /verif/rt/*.inc) /verif/rt/bbmc.h
+	@mkdir -p $(B)
+	$(CXX) $(RTFLAGS) -c $< -o $@
+
+$(B)/mc/%.o: $(REPO)/src/%.cpp
+	@mkdir -p $(dir $@)
+	$(CXX) $(MCFLAGS) -MMD -MP -c $< -o $@
+$(B)/mc/libbabylon_mc.a: $(BOBJ)
+	rm -f $@ && ar rcs $@ $(BOBJ)
+mc-objs: $(B)/mc/libbabylon_mc.a
+
+$(B)/h/%.o: /verif/harness/%.cpp /verif/rt/bbmc.h
+	@mkdir -p $(dir $@)
+	$(CXX) $(MCFLAGS) -MMD -MP -c $< -o $@
+$(B)/litmus: $(B)/h/litmus.o $(B)/bbmc_rt.o
+	$(CXX) -o $@ $^ $(LIBS)
+$(B)/mc_%: $(B)/h/mc_%.o $(B)/bbmc_rt.o $(B)/mc/libbabylon_mc.a
+	$(CXX) -o $@ $(B)/h/mc_$*.o $(B)/bbmc_rt.o $(B)/mc/libbabylon_mc.a $(LIBS)
+
+-include $(BOBJ:.o=.d) $(wildcard $(B)/h/*.d)
